@@ -292,6 +292,14 @@ def generate(outdir, seed, npairs):
             continue
         seen.add((a.cpp, b.cpp))
         pairs.append((a, b, rule, exp))
+    # systematic family: maps whose KEY types are fungible but not identical (the element-wise rule applies to keys as to values)
+    for (ka, kb, rule) in [(tg.pair(P("u8"), P("string")), tg.tup(P("u8"), P("string")), "pair ~ tuple<A,B>"), (tg.arr(P("i32"), 2), tg.vec(P("i32")), "vector<T> ~ array<T,N>"),
+                           (tg.tup(P("string"), P("string")), tg.arr(P("string"), 2), "vector/array<T> ~ tuple<T...> (non-integral T)"), (tg.pair(P("i16"), P("i16")), tg.tup(P("i16"), P("i16")), "pair ~ tuple<A,B>")]:
+        for val in [P("string"), tg.vec(P("u16"))]:
+            for (ma, mb) in [(tg.mp, tg.mp), (tg.mp, tg.mp)][:1]:
+                a = ma(ka, val); b = mb(kb, val)
+                if (a.cpp, b.cpp) not in seen:
+                    seen.add((a.cpp, b.cpp)); pairs.append((a, b, "element-wise (map keys) / " + rule, True))
     # systematic family: vector<E> ~ logical buffer of E[N] for every size-member shape (documented pair)
     for en in ["u8", "u16", "u32", "u64", "i32", "string", "double"]:
         for sz, n in [("u8", 100), ("u8", 255), ("i8", 100), ("u16", 300), ("int", 100), ("size_t", 3), ("i16", 130), ("u32", 7)]:
@@ -385,6 +393,14 @@ def generate(outdir, seed, npairs):
             facts.append((cref, val, "tuple of const references ~ tuple of values", True)); facts.append((ref, val, "tuple of references ~ tuple of values", True))
         facts.append(("std::pair<const %s&, const %s&>" % (e, e), "std::pair<%s, %s>" % (e, e), "pair of const references ~ pair of values", True))
         facts.append(("std::pair<const %s&, const %s&>" % (e, e), "std::tuple<%s, %s>" % (e, e), "pair of const references ~ tuple of values", True))
+    # hand-written types (engines/fung/pairs.h): a logical buffer whose array member is const (symmetry and the Protocol gate only), maps keyed by a value wrapper
+    for b in ["vf::facts::VecIntS", "vf::facts::ArrIntS", "vf::facts::VecStrS", "std::vector<int>"]:
+        facts.append(("vf::facts::LBConstArr", b, "logical buffer with a const array member against a sequence (symmetry only)", False))
+        facts.append(("vf::facts::LBConstStrArr", b, "logical buffer with a const array member against a sequence (symmetry only)", False))
+    facts.append(("vf::facts::LBConstArr", "vf::facts::LBArr", "logical buffer with a const array member against the same without const (symmetry only)", False))
+    facts.append(("std::map<vf::facts::KeyW, std::string>", "std::map<std::uint32_t, std::string>", "map keys: value wrapper ~ wrapped type", True))
+    facts.append(("std::map<vf::facts::KeyW, std::string>", "std::unordered_map<std::uint32_t, std::string>", "map ~ unordered_map with fungible keys", True))
+    facts.append(("std::map<std::uint32_t, vf::facts::KeyW>", "std::map<std::uint32_t, std::uint32_t>", "map values: value wrapper ~ wrapped type", True))
     L += ["std::vector<FungFact> fung_facts() {", "  std::vector<FungFact> v;"]
     for (a, b, rule, exp) in facts:
         L.append("  v.push_back(FungFact{%s, %s, %s, %s, nop::IsFungible<%s, %s>::value, nop::IsFungible<%s, %s>::value, ProtocolWriteAdmits<%s, %s>::value});" % (
